@@ -152,6 +152,77 @@ def r2_capture_execute(ctx):
                         'output of _prepare_sql', key='no-prepare-upstream')
 
 
+def r2b_param_condition_agrees(ctx):
+    """cursor.execute(statement, params) treats the statement as a format
+    string whenever params is not None (an empty tuple included: SQLite's
+    wrapper then rewrites `%s` and `%%`).  If the capture side decides
+    between "format with the parameters" and "print verbatim" by the *truth*
+    of params, the two agree only if an empty parameter tuple can never
+    reach the loop: the producer (_prepare_sql) has to normalise it to
+    None."""
+    ctx.rule('R-C14.2')
+    p = ctx.program
+    f = p.func('utils.sql', 'SQLExecutor.run_sql')
+    g = ctx.cfg(f)
+    caps_fmt = [n for n in g.nodes for c in n.calls()
+                if call_name(c) == 'append' and any(
+                    isinstance(x, ast.BinOp) and isinstance(x.op, ast.Mod)
+                    for a in c.args for x in ast.walk(a))]
+    ctx.floor('capture sites that format with parameters', len(caps_fmt), 1)
+    kinds = set()
+    for n in caps_fmt:
+        for t in g.nodes:
+            if t.kind != 'test' or not g.guarded_by(n, t, 'T'):
+                continue
+            txt = ' '.join(unparse(t.ast).split())
+            if txt == 'params':
+                kinds.add('truthy')
+            elif txt in ('params is not None',):
+                kinds.add('not-none')
+    if not kinds:
+        ctx.info('capture formats unconditionally')
+        return
+    if kinds == {'not-none'}:
+        ctx.ok(f, 'capture formats with parameters exactly when execution '
+               'does (params is not None)')
+        return
+    prep = p.func('utils.sql', 'SQLExecutor._prepare_sql')
+    pg = ctx.cfg(prep)
+    normalised = False
+    for n in pg.nodes:
+        a = n.ast
+        if n.kind == 'stmt' and isinstance(a, ast.Assign) and any(
+                isinstance(t, ast.Name) and t.id == 'params'
+                for t in a.targets):
+            v = a.value
+            if isinstance(v, ast.Constant) and v.value is None:
+                for t in pg.nodes:
+                    if t.kind != 'test':
+                        continue
+                    txt = ' '.join(unparse(t.ast).split())
+                    if (txt == 'params' and pg.guarded_by(n, t, 'F')) or \
+                            (txt in ('not params', 'len(params) == 0',
+                                     'params == ()') and
+                             pg.guarded_by(n, t, 'T')):
+                        normalised = True
+            if isinstance(v, ast.BoolOp) and isinstance(v.op, ast.Or) and \
+                    unparse(v.values[0]) == 'params' and \
+                    isinstance(v.values[-1], ast.Constant) and \
+                    v.values[-1].value is None:
+                normalised = True
+    if normalised:
+        ctx.ok(prep, 'an empty parameter tuple is normalised to None before '
+               'it reaches capture / execute')
+    else:
+        ctx.finding(f, caps_fmt[0].ast, 'the preview formats a statement with '
+                    'its parameters only when `params` is truthy, execution '
+                    'passes `params` to cursor.execute() whenever it is not '
+                    'None, and _prepare_sql lets an empty tuple through: a '
+                    'statement queued as (sql, ()) with a literal "%" is '
+                    'printed verbatim but executed as a format string',
+                    key='empty-params-tuple')
+
+
 def _task_attrs_into_run_sql(f, capture_only):
     """Attributes of loop/local objects that reach run_sql(...) in f."""
     out = []
@@ -342,6 +413,7 @@ def r3_preview_classes(ctx):
 def run(ctx):
     r1_determinism(ctx)
     r2_capture_execute(ctx)
+    r2b_param_condition_agrees(ctx)
     r3_preview_classes(ctx)
 
 
